@@ -640,15 +640,11 @@ def main(run):
             probs, rep = calcrow_oracle(ln, b)
             n_in += rep
             n_out += (not rep)
-            if probs and rep:
+            if probs and not rep and kf_wrap:
+                run.known(kf_wrap, ln)
+            elif probs:
                 sbad += 1
-                run.violation("initial timeout out of range: " + probs[0],
-                              "case: %s\nimpl : %s\nmodel: %s\n" % (ln, b, a), tag="calc%d" % sbad)
-            elif probs and not rep:
-                if kf_wrap:
-                    run.known(kf_wrap, ln)
-                else:
-                    sbad += 1
+                if sbad <= 3:
                     run.violation("initial timeout out of range: " + probs[0],
                                   "case: %s\nimpl : %s\nmodel: %s\n" % (ln, b, a), tag="calc%d" % sbad)
         if a != b:
